@@ -4,10 +4,13 @@ all histories). Tie: T-corr, extracted M-BT vs the real BacktraceStorage on gene
 plus the property monitor evaluated directly on the implementation's callbacks."""
 import json, os, sys
 from vlib import Check, standard_proof_phase, correspond, ddmin
+import copy
+import be_common as BC
+from props.c01 import srcfacts_values
 
 PID = 'C18'
 MANIFEST = dict(
-    text='Machine-checked refinement (Coq): for every capacity and every history of store/flush/re-init the ring buffer emits exactly the most recent min(cap, stored) events, oldest first, once, with no out-of-bounds access (C18_bt_refines + spec lemmas; refutations of the two unfixed configurations). Tied to BacktraceStorage by differential runs of the extracted model against the real class plus a direct property monitor. The backend-level clauses (held back when logged, replay right after the trigger) are covered by the M-BE checks when present; see DESIGN section 5 C18.',
+    text='Machine-checked refinement (Coq): for every capacity and every history of store/flush/re-init the ring buffer emits exactly the most recent min(cap, stored) events, oldest first, once, with no out-of-bounds access (C18_bt_refines + spec lemmas; refutations of the two unfixed configurations). Backend level: every access of _process_transit_event to a logger storage is exactly one of these operations at the right moment (held back when logged; replay right after the trigger own dispatch when its level reaches the flush level and on flush_backtrace; set_capacity on init), so the refinement applies to the storage of every logger. Tied to the code twice: the extracted ring model against the real BacktraceStorage, and the backend model against the real backend through the deterministic driver (LOG_BACKTRACE / init_backtrace / flush_backtrace), each with a direct property monitor on the implementation.',
     design='5 C18', technique='Coq refinement proof (ring -> most-recent-N spec) + extracted-model/implementation differential correspondence')
 TRUSTED = [
     'Coq 8.16.1 kernel (coqc, vm_compute for the refutation examples; no native_compute)',
@@ -104,6 +107,56 @@ def gen(rng, n):
     return cases
 
 
+def be_gen_case(rng, facts):
+    """one thread (processing order = issue order), blocking queue, no throwing sinks: ordinary statements at every
+    level, LOG_BACKTRACE statements, init_backtrace with capacities 0-5 and flush levels, flush_backtrace"""
+    nl = rng.randint(1, 2)
+    c = BC.Case(dropping=0, capk=10, tinit=rng.choice([2, 4]), soft=rng.choice([1, 4]), hard=8, grace=0,
+                loggers=[(0, [0]) for _ in range(nl)], sinks=[(0, [])], facts=facts)
+    for _ in range(rng.randint(6, 45)):
+        r = rng.random(); lg = rng.randrange(nl)
+        if r < 0.4: c.log(0, lg=lg, lvl=9)
+        elif r < 0.68: c.log(0, lg=lg, lvl=rng.choice([2, 4, 6, 7, 8]))
+        elif r < 0.83: c.init_bt(0, lg=lg, cap=rng.choice([0, 1, 2, 3, 3, 5]), flvl=rng.choice([10, 10, 8, 7, 4]))
+        else: c.flush_bt(0, lg=lg)
+        # processed before the next call, so that "configured flush level" is unambiguous for the monitor (the flush level
+        # is a frontend-side atomic read at processing time; asynchronous interleavings are covered by the model comparison
+        # of the M-BE checks)
+        c.poll(); c.poll()
+    for _ in range(30): c.poll()
+    return c
+
+
+def be_monitor(case, obs):
+    """the property at API level for one thread: expected sequence of (id) written to the sink"""
+    if obs is None: return 'no observations'
+    st = {}   # logger -> dict(cap, stored, flvl)
+    exp = []
+    for c in case.cmds:
+        if c[0] == 'log':
+            _, t, i, lg, lvl = c[:5]
+            L = st.get(lg)
+            if lvl == 9:
+                if L is not None: L['stored'].append(i)
+            else:
+                exp.append(i)
+                if L is not None and lvl >= L['flvl']:
+                    k = min(L['cap'], len(L['stored'])); exp += L['stored'][len(L['stored']) - k:] if k else []; L['stored'] = []
+        elif c[0] == 'initbt':
+            _, t, i, lg, cap, flvl, sz = c
+            L = st.setdefault(lg, dict(cap=None, stored=[], flvl=10))
+            if L['cap'] != cap: L['cap'] = cap; L['stored'] = []
+            L['flvl'] = flvl
+        elif c[0] == 'flushbt':
+            L = st.get(c[3])
+            if L is not None:
+                k = min(L['cap'], len(L['stored'])); exp += L['stored'][len(L['stored']) - k:] if k else []; L['stored'] = []
+    got = [o[2] for o in obs if o[0] == 'write']
+    if got != exp:
+        return 'sink received %s but the property gives %s (backtrace statements held back, most recent min(cap, stored) replayed once, oldest first, right after the trigger)' % (got[:30], exp[:30])
+    return None
+
+
 def corpus():
     d = os.path.join(os.path.dirname(os.path.dirname(os.path.abspath(__file__))), 'corpus', PID)
     out = []
@@ -141,13 +194,39 @@ def run(tier):
         return unparse(hdr, ddmin(ops, fails))
 
     dis, mon = correspond(ck, 'M-BT vs BacktraceStorage', cases, ml, il, monitor=monitor, shrink=shrink)
+
+    # ---- backend level: LOG_BACKTRACE / init_backtrace / flush_backtrace through the real backend (driver)
+    facts = srcfacts_values()
+    bexe, err = ck.build_harness('be', ['be.cpp'], flags=['-ldl'], san=(tier != 'quick'))
+    nb = 0; bdis = bmon = []
+    if not bexe:
+        ck.violation('no-failing-input-found', 'harness be.cpp does not compile against /repo: ' + err[-600:])
+    else:
+        bobjs = [be_gen_case(ck.rng, facts) for _ in range(250 if tier == 'quick' else 10000)]
+        blines = [c.line() for c in bobjs]; byline = dict(zip(blines, bobjs))
+        bml = ck.run_model(mexe, blines); bil = ck.run_impl(bexe, blines, timeout=600, per_case_timeout=15)
+        def bmonf(line, impl):
+            if impl.startswith(('CRASH', 'HANG', 'NOOUTPUT')): return 'implementation ' + impl
+            return be_monitor(byline[line], BC.parse_obs(impl))
+        def bshrink(line, mode):
+            c0 = byline[line]
+            def mk(cmds):
+                c = copy.copy(c0); c.cmds = list(cmds); return c
+            def fails(cmds):
+                c = mk(cmds); l = c.line(); i = ck.run_impl(bexe, [l], per_case_timeout=15)[0]
+                if mode == 'monitor': return i.startswith(('CRASH', 'HANG')) or be_monitor(c, BC.parse_obs(i)) is not None
+                return ck.run_model(mexe, [l])[0] != i
+            return mk(ddmin(c0.cmds, fails, max_tests=150)).line()
+        bdis, bmon = correspond(ck, 'M-BE (backtrace) vs backend driver', blines, bml, bil, monitor=bmonf, shrink=bshrink)
+        nb = len(blines)
     if broken and not ck.violations:
         ck.violation('no-failing-input-found', '; '.join(broken))
     nt = len(set(c for c in cases if nontrivial(c)))
     return ck.finish(trusted=TRUSTED, samples=cases[:2] + cases[-2:],
                      rule='histories of store/process/set_capacity (case = "bt 1 1" then ops: "0 x" store, "1" flush, "2 c" set capacity); structured sweep cap 0..5 x k1 0..2cap+1 x k2 plus seeded random; non-trivial = a wrapped ring was flushed and >= 2 flush cycles; distinct by case text',
-                     evaluations=len(cases), distinct_nontrivial=nt, traces=len(cases) - len(dis) - len(mon),
-                     extra_cov={'disagreements': len(dis), 'monitor_failures': len(mon), 'corpus_cases': len(corpus())})
+                     evaluations=len(cases) + nb, distinct_nontrivial=nt, traces=len(cases) + nb - len(dis) - len(mon) - len(bdis) - len(bmon),
+                     extra_cov={'disagreements': len(dis) + len(bdis), 'monitor_failures': len(mon) + len(bmon), 'corpus_cases': len(corpus()),
+                                'unit_level_cases': len(cases), 'backend_level_cases': nb})
 
 
 def replay(path):
